@@ -204,7 +204,7 @@ func NewHTTPBodyReader(readJSON, useUsernameNotEmail bool) *HTTPBodyReader {
 			"recover_end": {FormValuePassword, authboss.ConfirmPrefix + FormValuePassword},
 		},
 		Whitelist: map[string][]string{
-			"register": {FormValueEmail, FormValuePassword},
+			"register": {FormValueEmail},
 		},
 	}
 }
